@@ -137,7 +137,7 @@ def search(maxlen):
                     p = run_history(variant, limit, None, ops)
                     if p:
                         return n, dict(variant=variant, limit=limit, expiration=None, history=list(ops), problem=p)
-    calls = [("call", k, r) for k in range(len(KEYS)) for r in range(2)]
+    all_calls = [("call", k, r) for k in range(len(KEYS)) for r in range(2)]
     # longer random histories (the exhaustive part stops at length maxlen+1): clock steps of half the expiration, so that
     # lookups, insertions and evictions often happen at the very instant an entry reaches its expiration
     import random
@@ -146,7 +146,8 @@ def search(maxlen):
         variant = rng.choice(("sync", "method", "async"))
         limit = rng.choice((1, 2, 3))
         expiration = rng.choice((None, 1.0, 1.0, 2.0))
-        ab = ([c for c in calls if c[2] == 0] if variant != "method" else calls) + \
+        pool = calls if rng.random() < 0.75 else all_calls      # mostly the three positional keys (dense re-use), sometimes all forms
+        ab = ([c for c in pool if c[2] == 0] if variant != "method" else pool) + \
             ([] if expiration is None else [("tick", 0.5), ("tick", 1.0), ("tick", 0.5)])
         ops = tuple(rng.choice(ab) for _ in range(rng.randint(5, 12)))
         n += 1
@@ -156,9 +157,71 @@ def search(maxlen):
     return n, None
 
 
+def overlapping_async():
+    """The limit also holds for calls that overlap: `limit`+1 calls with distinct keys are in flight at once (the first key is
+    evicted while its invocation still runs), they finish in any order - afterwards the evicted key is recomputed, and never
+    more than `limit` distinct keys are answered without an invocation."""
+    import asyncio
+    for method in (False, True):
+        for limit in (1, 2):
+            for finish_order in ("first-started-first", "first-started-last"):
+                calls = []
+                gates = {}
+
+                async def body(x):
+                    calls.append(x)
+                    await gates[x].wait()
+                    return ("v", x, len(calls))
+                if method:
+                    class H:
+                        @cache(limit=limit)
+                        async def m(self, x):
+                            return await body(x)
+                    fn = H().m
+                else:
+                    @cache(limit=limit)
+                    async def fn(x):
+                        return await body(x)
+
+                async def main():
+                    keys = list(range(1, limit + 2))
+                    for k in keys:
+                        gates[k] = asyncio.Event()
+                    tasks = []
+                    for k in keys:
+                        tasks.append(asyncio.ensure_future(fn(k)))
+                        await asyncio.sleep(0)
+                    for k in (keys if finish_order == "first-started-first" else reversed(keys)):
+                        gates[k].set()
+                        await asyncio.sleep(0)
+                        await asyncio.sleep(0)
+                    await asyncio.gather(*tasks)
+                    for _ in range(3):
+                        await asyncio.sleep(0)
+                    # every key asked again, most recently inserted first: at most `limit` of them may be answered from the cache
+                    before = len(calls)
+                    hits = 0
+                    for k in reversed(keys):
+                        n0 = len(calls)
+                        await fn(k)
+                        hits += len(calls) == n0
+                    return hits, before
+                hits, before = asyncio.run(main())
+                if hits > limit:
+                    return (f"async {'method ' if method else ''}cache with limit {limit}: {limit + 1} overlapping calls with distinct keys "
+                            f"(finishing {finish_order}), then every key asked again: {hits} keys were answered without an invocation "
+                            f"- more than `limit` entries were kept alive")
+    return None
+
+
 def main():
     sys.stdin.read()
     n, fail = search(int(os.environ.get("C12_MAXLEN", "4")))
+    if not fail:
+        n += 8
+        p = overlapping_async()
+        if p:
+            fail = dict(problem=p)
     if not fail:
         from mimic_frame import own_state_problems
         from haiway import cache as _cache
